@@ -20,6 +20,7 @@ import (
 	"github.com/database64128/shadowsocks-go"
 	"github.com/database64128/shadowsocks-go/mmap"
 	"github.com/database64128/shadowsocks-go/ss2022"
+	"github.com/database64128/shadowsocks-go/verifhook"
 	"go.uber.org/zap"
 )
 
@@ -127,7 +128,9 @@ func writeFileAtomic(name string, data []byte, perm os.FileMode) error {
 		return err
 	}
 	tmpName := f.Name()
+	verifhook.At("cred.save.beforeWrite", name)
 	_, err = f.Write(data)
+	verifhook.At("cred.save.afterWrite", name)
 	if err == nil {
 		err = f.Chmod(perm)
 	}
@@ -137,9 +140,11 @@ func writeFileAtomic(name string, data []byte, perm os.FileMode) error {
 	if closeErr := f.Close(); err == nil {
 		err = closeErr
 	}
+	verifhook.At("cred.save.beforeRename", name)
 	if err == nil {
 		err = os.Rename(tmpName, name)
 	}
+	verifhook.At("cred.save.afterRename", name)
 	if err != nil {
 		_ = os.Remove(tmpName)
 	}
@@ -149,6 +154,7 @@ func writeFileAtomic(name string, data []byte, perm os.FileMode) error {
 func (s *ManagedServer) dequeueSave(ctx context.Context) {
 	for {
 		// Wait for incoming save job.
+		verifhook.At("cred.saver.wait", s)
 		select {
 		case <-s.saveQueue:
 		case <-ctx.Done():
@@ -163,6 +169,7 @@ func (s *ManagedServer) dequeueSave(ctx context.Context) {
 		}
 
 		// Wait for cooldown.
+		verifhook.At("cred.saver.cooldown", s)
 		select {
 		case <-time.After(5 * time.Second):
 		case <-ctx.Done():
@@ -183,11 +190,13 @@ func (s *ManagedServer) save() {
 	// It is without doubt that taking the read lock is enough for cachedCredMap.
 	// As for cachedContent, the only other place that reads and writes it is LoadFromFile,
 	// which takes the write lock. So it is safe to take just the read lock here.
+	verifhook.At("cred.saver.beforeSave", s)
 	s.mu.RLock()
 	if err := s.saveToFile(); err != nil {
 		s.logger.Error("Failed to save credentials", zap.Error(err))
 	}
 	s.mu.RUnlock()
+	verifhook.At("cred.saver.afterSave", s)
 }
 
 // Start starts the managed server.
@@ -251,6 +260,7 @@ func (s *ManagedServer) AddCredential(username string, uPSK []byte) error {
 		ulm[uc.uPSKHash] = c
 	})
 	s.mu.Unlock()
+	verifhook.At("cred.op.afterUnlock", s)
 	s.enqueueSave()
 	return nil
 }
@@ -290,6 +300,7 @@ func (s *ManagedServer) UpdateCredential(username string, uPSK []byte) error {
 		ulm[uc.uPSKHash] = c
 	})
 	s.mu.Unlock()
+	verifhook.At("cred.op.afterUnlock", s)
 	s.enqueueSave()
 	return nil
 }
@@ -308,6 +319,7 @@ func (s *ManagedServer) DeleteCredential(username string) error {
 		delete(ulm, uc.uPSKHash)
 	})
 	s.mu.Unlock()
+	verifhook.At("cred.op.afterUnlock", s)
 	s.enqueueSave()
 	return nil
 }
@@ -374,6 +386,7 @@ func (s *ManagedServer) LoadFromFile() error {
 		s.udp.ReplaceUserLookupMap(maps.Clone(s.cachedUserLookupMap))
 	}
 	s.mu.Unlock()
+	verifhook.At("cred.load.afterUnlock", s)
 
 	return nil
 }
